@@ -86,6 +86,14 @@ SetAt(st, p, i, v) ==
   ELSE IF Free(st) = {} THEN {}
   ELSE LET f == Fresh(st) IN {Ok(ReplaceKid(WithObj(st, f, st.nm[st.kids[p][i]], v, 1), p, i, f))}
 
+(* p.<n>.<something below> = v, a write THROUGH the child: the first repetition of n is written in place (same   *)
+(* object, new value); when there is none, the child the traversal created is attached with the value, like an     *)
+(* assignment by name                                                                                              *)
+SetDeep(st, p, n, v) ==
+  IF n \notin Names THEN {Rej(st)}
+  ELSE LET r == Reps(st, p, n) IN
+       IF r = <<>> THEN SetRep(st, p, n, 0, v) ELSE {Ok([st EXCEPT !.val[r[1]] = v])}
+
 (* children[i] = c with an element object c: refused unless c carries the name of the child at that position; *)
 (* a free object of that name (and of the parent's level and version) replaces that child in place             *)
 SetAtObj(st, p, i, c) ==
@@ -173,6 +181,7 @@ Succ(st, o) ==
     [] o.op = "SetObj"   -> SetObj(st, o.p, o.n, o.c)
     [] o.op = "SetAt"    -> SetAt(st, o.p, o.i, o.v)
     [] o.op = "SetAtObj" -> SetAtObj(st, o.p, o.i, o.c)
+    [] o.op = "SetDeep"  -> SetDeep(st, o.p, o.n, o.v)
     [] o.op = "AddNew"   -> AddNew(st, o.p, o.n)
     [] o.op = "AddObj"   -> Attach(st, o.p, o.c)
     [] o.op = "Reparent" -> Attach(st, o.p, o.c)
